@@ -61,6 +61,9 @@ def private_tmp():
             return False
         if libc.mount(b"tmpfs", b"/tmp", b"tmpfs", 0, b"size=512m") != 0:
             return False
+        # the other place temporaries traditionally go; TMPDIR points into it (a driver that starts to honour TMPDIR is still watched)
+        if libc.mount(b"tmpfs", b"/var/tmp", b"tmpfs", 0, b"size=64m") != 0:
+            return False
         return True
     except Exception:
         return False
@@ -571,18 +574,20 @@ class Machine:
             with open(os.path.join(cwd, name), "w") as f:
                 f.write(data)
         if self.env["private_tmp"]:
-            for f in os.listdir("/tmp"):
-                p = os.path.join("/tmp", f)
-                if os.path.isdir(p) and not os.path.islink(p):
-                    shutil.rmtree(p, ignore_errors=True)
-                else:
-                    try:
-                        os.unlink(p)
-                    except OSError:
-                        pass
+            for top in ("/tmp", "/var/tmp"):
+                for f in os.listdir(top):
+                    p = os.path.join(top, f)
+                    if os.path.isdir(p) and not os.path.islink(p):
+                        shutil.rmtree(p, ignore_errors=True)
+                    else:
+                        try:
+                            os.unlink(p)
+                        except OSError:
+                            pass
+            os.makedirs("/var/tmp/td", exist_ok=True)
         self.cwd = cwd
         self.before = snapshot(cwd)
-        self.tmp_before = snapshot("/tmp") if self.env["private_tmp"] else {}
+        self.tmp_before = snapshot_tmp() if self.env["private_tmp"] else {}
 
     # ---------- protocol
     def send(self, p, line):
@@ -688,6 +693,8 @@ class Machine:
                 self.inv_state[p.inv]["temps"].append(unesc(w[3]))
             if w[1] == "execvp" and int(w[2]) < 0:
                 p.exec_failed = True
+            if w[1] == "created" and len(w) >= 4:
+                self.inv_state[p.inv]["created"].append((w[2], unesc(w[3])))
             if w[1] == "wait" and int(w[2]) > 0:
                 p.dead_unreaped -= 1
                 self.inv_state[p.inv]["waits"].append((int(w[2]), int(w[3])))
@@ -871,12 +878,12 @@ class Machine:
         self.pending_hello = 0
         popen = {}
         env = {"PATH": self.env["tools"][self.scn["tools"]] + ":/usr/bin:/bin", "LD_PRELOAD": self.env["libvsim"], "VSIM_SOCK": sock,
-               "HOME": "/nonexistent", "LANG": "C"}
+               "HOME": "/nonexistent", "LANG": "C", "TMPDIR": "/var/tmp/td"}
         outs = {}
         try:
             for i in self.which:
                 inv = self.scn["invocations"][i]
-                self.inv_state[i] = {"nfork": 0, "count": {}, "children": [], "ended": [], "fired": [], "temps": [], "waits": [], "exits": [], "opens": [], "unlinks": [], "orphans": []}
+                self.inv_state[i] = {"nfork": 0, "count": {}, "children": [], "ended": [], "fired": [], "temps": [], "waits": [], "exits": [], "opens": [], "unlinks": [], "orphans": [], "created": []}
                 so = open(os.path.join(self.wdir, "stdout.%d" % i), "wb") if inv["stdout"] != "devfull" else open("/dev/full", "wb")
                 se = open(os.path.join(self.wdir, "stderr.%d" % i), "wb") if inv.get("stderr", "file") == "file" else open("/dev/full", "wb")
                 if inv.get("stderr", "file") != "file":
@@ -931,7 +938,7 @@ class Machine:
             self.sel.close()
             self.srv.close()
         texts = {}
-        res = {"verdict": verdict, "status": status, "after": snapshot(self.cwd, texts), "after_text": texts, "tmp_after": snapshot("/tmp") if self.env["private_tmp"] else {},
+        res = {"verdict": verdict, "status": status, "after": snapshot(self.cwd, texts), "after_text": texts, "tmp_after": snapshot_tmp() if self.env["private_tmp"] else {},
                "before": self.before, "tmp_before": self.tmp_before, "inv": self.inv_state, "log": self.log, "choices": self.choices,
                "loghash": sha("\n".join(self.log)), "stderr": {}, "stdout": {}, "events": self.nevents,
                "context_switches": self.context_switches, "interleaved_with_temps": self.interleaved_with_temps, "fault_fired": list(self.fault_fired)}
@@ -962,6 +969,17 @@ def pre_exec(inv, reference=False):
             import signal
             signal.signal(signal.SIGCHLD, signal.SIG_IGN)
     return f
+
+
+def snapshot_tmp():
+    """everything in the private /tmp and /var/tmp, directories included (a left-over directory is a left-over too)"""
+    out = {}
+    for top in ("/tmp", "/var/tmp"):
+        for root, dirs, fs in os.walk(top):
+            for x in dirs + fs:
+                out[os.path.join(root, x)] = 1
+    out.pop("/var/tmp/td", None)
+    return out
 
 
 def snapshot(d, texts=None):
@@ -999,7 +1017,7 @@ def reference_run(env, wdir, scn, i, cache):
     mach = Machine(env, wdir, {"files": scn["files"], "pre": {}, "tools": scn["tools"], "invocations": scn["invocations"]}, [i], {"kind": "serial"})
     mach.setup_fs()
     # (the shim is loaded but inactive without VSIM_SOCK; it still refuses to unlink device nodes)
-    e = {"PATH": env["tools"][scn["tools"]] + ":/usr/bin:/bin", "HOME": "/nonexistent", "LANG": "C", "LD_PRELOAD": env["libvsim"]}
+    e = {"PATH": env["tools"][scn["tools"]] + ":/usr/bin:/bin", "HOME": "/nonexistent", "LANG": "C", "TMPDIR": "/var/tmp/td", "LD_PRELOAD": env["libvsim"]}
     so = open(os.path.join(wdir, "ref.stdout"), "wb") if inv["stdout"] != "devfull" else open("/dev/full", "wb")
     with so, open(os.path.join(wdir, "ref.stderr"), "wb") as se:
         try:
@@ -1083,7 +1101,7 @@ def reference_asm(env, wdir, scn, inp, flags, cache):
         return cache[key]
     mach = Machine(env, wdir, {"files": scn["files"], "pre": {}, "tools": "stub", "invocations": []}, [], {"kind": "serial"})
     mach.setup_fs()
-    e = {"PATH": env["tools"]["stub"] + ":/usr/bin:/bin", "HOME": "/nonexistent", "LANG": "C", "LD_PRELOAD": env["libvsim"]}
+    e = {"PATH": env["tools"]["stub"] + ":/usr/bin:/bin", "HOME": "/nonexistent", "LANG": "C", "TMPDIR": "/var/tmp/td", "LD_PRELOAD": env["libvsim"]}
     try:
         p = subprocess.run([env["cc"]] + flags + ["-S", inp, "-o", "ref.model.s"], cwd=mach.cwd, env=e, stdin=subprocess.DEVNULL, stdout=subprocess.PIPE, stderr=subprocess.PIPE, timeout=60)
     except subprocess.TimeoutExpired:
@@ -1376,6 +1394,23 @@ def check(env, wdir, scn, res, solo, refs, which):
                 v.append(("O5-unlinks-a-temporary-it-gave-up", i, "the driver unlinks %s a second time; between the two calls the name is free for any other process" % mach_canon(t)))
                 break
             seen_u.add(t)
+        # O3 nothing the command made anywhere else is left: files that came into being through open/creat/mkdir/rename/link/symlink
+        # directly, or through fopen outside the working directory and /tmp (both of which are compared as a whole further down)
+        cwd_abs = os.path.join(wdir, "cwd")
+        elsewhere = [(how, pth) for how, pth in st["created"]] + [("fopen", pth) for lab, k, pth in st["opens"] if k == "fopen-w" and pth.startswith("/")]
+        for how, pth in elsewhere:
+            np_ = os.path.normpath(pth)
+            if np_.startswith(cwd_abs + "/") or np_.startswith("/tmp/") or np_.startswith("/dev/") or np_.startswith("/proc/"):
+                continue
+            if os.path.lexists(np_):
+                v.append(("O3-stray-file", i, "%s (made by %s) is still there after the command" % (np_, how)))
+                try:
+                    if os.path.isdir(np_) and not os.path.islink(np_):
+                        shutil.rmtree(np_, ignore_errors=True)
+                    else:
+                        os.unlink(np_)
+                except OSError:
+                    pass
         # O3 no temporaries (per invocation: every mkstemp name handed to it is gone)
         for t in st["temps"]:
             if os.path.exists(t):
@@ -1425,7 +1460,7 @@ def check(env, wdir, scn, res, solo, refs, which):
         else:
             v.append(("O4-unrelated-file-changed", -1, "file %s was modified" % f))
     for f in sorted(set(res["tmp_after"]) - set(res["tmp_before"])):
-        v.append(("O3-temporary-left", -1, "/tmp/%s left behind" % f))
+        v.append(("O3-temporary-left", -1, "%s left behind" % f))
     return v
 
 
